@@ -150,6 +150,9 @@ _METHODS = {
     (dict, "values"),
     (dict, "items"),
     (dict, "get"),
+    (dict, "copy"),  # shallow, like the language: the values are shared with the original (sa/procstate.py decides what that means across calls)
+    (list, "copy"),
+    (set, "copy"),
     (list, "index"),
     (list, "count"),
     (tuple, "index"),
